@@ -276,6 +276,37 @@ func checkC04(c *Check) {
 		}
 		c.add("O-C04.4", "early Unknown return only for an unknown status", "the server loop returns early with Unknown only when the error is an UnknownStatusError", ok, c.P.pos(s.Node.Pos), det...)
 	}
+	// every server result that lets the loop go on is non-decisive (Unknown, not an unknown *status*)
+	slice := "make([]*ncg/revocation/result.ServerResult, len(p1.OCSPServer))"
+	slot := slice + "[rk(p1.OCSPServer)]"
+	var badSt []string
+	nst := 0
+	for _, s := range spg.States {
+		for _, e := range s.Out {
+			for _, l := range e.Labels {
+				if (l.Kind == "store" || l.Kind == "lstore") && strings.HasPrefix(l.Key, slice+"[") {
+					if _, ok := c.search(spg, []*PState{spg.Entry}, inSet([]*PState{s}), nil); !ok {
+						continue // only reachable through infeasible edges
+					}
+					nst++
+					cl, ok := resultClass(l.T2)
+					okSt := l.Key == slot && ok && cl == resUnknown
+					if okSt {
+						if er := structGet(l.T2.Args[0], "Error"); er != nil {
+							if dt, k := dynType(er); k && dt == "ncg/revocation/internal/ocsp.UnknownStatusError" {
+								okSt = false
+							}
+						}
+					}
+					if !okSt {
+						badSt = append(badSt, c.P.pos(l.Node.Pos)+": "+l.String())
+					}
+				}
+			}
+		}
+	}
+	c.add("O-C04.4", "only non-decisive results are accumulated", "a server result is kept for the aggregate (and the next server asked) only if it is Unknown and not an unknown-status answer: OK, Revoked and unknown-status answers end the loop at once", len(badSt) == 0 && nst > 0, "", badSt...)
+	c.perIteration(spg, "O-C04.4", "every non-decisive server result is recorded in its slot", "an iteration that goes on to the next server records its result at the server's index", "p1.OCSPServer", StoreTo(slot))
 	c.mustPass(spg, "O-C04.4", "aggregate only after all servers", "the aggregated (non-decisive) result", final, RangeDone("p1.OCSPServer"))
 	c.onlyAfterExhaustion(spg, "O-C04.4", "no aggregate from inside the loop", "the aggregated result", "p1.OCSPServer", final)
 	// a decisive per-server result returns at once: after an OK/Revoked server result no further server is asked
